@@ -540,6 +540,99 @@ func rmOpsRun(r *vk.Rand) rmOpsRow {
 	return row
 }
 
+// ---------------------------------------------------------------- mode joinrace
+// ServerSocket.Join reads the socket's join closure under joinMu but calls it after unlocking;
+// onClose swaps the closure for a no-op and then calls leaveAll.  The public Debugger is called
+// inside the old closure ("Joining room(s)") just before AddAll, which lets the harness hold a
+// Join exactly there while the socket is disconnected.  Observation: SocketRooms / Rooms of the
+// closed socket afterwards.
+type rmParkDebugger struct {
+	armed   *atomic.Bool
+	parked  chan struct{}
+	release chan struct{}
+}
+
+func (d rmParkDebugger) Log(main string, v ...any) {
+	if main == "Joining room(s)" && d.armed.CompareAndSwap(true, false) {
+		d.parked <- struct{}{}
+		<-d.release
+	}
+}
+func (d rmParkDebugger) WithContext(string) sio.Debugger { return d }
+func (d rmParkDebugger) WithDynamicContext(string, func() string) sio.Debugger {
+	return d
+}
+
+type rmJoinRaceRow struct {
+	Forced      bool  `json:"forced"`       // false: plain sequence disconnect; join (control)
+	RoomsOk     bool  `json:"rooms_ok"`     // Adapter().SocketRooms(id) reports the closed socket
+	Rooms       []int `json:"rooms"`        // its rooms (room "x9" = 9)
+	SocketRooms int   `json:"socket_rooms"` // ServerSocket.Rooms().Cardinality()
+	Connected   bool  `json:"connected"`
+}
+
+func roomsJoinRace(out *vk.Out) error {
+	for _, forced := range []bool{false, true} {
+		d := rmParkDebugger{armed: new(atomic.Bool), parked: make(chan struct{}, 1), release: make(chan struct{})}
+		srv := sio.NewServer(&sio.ServerConfig{Debugger: d})
+		if err := srv.Run(); err != nil {
+			return err
+		}
+		ts := httptest.NewServer(srv)
+		connCh := make(chan sio.ServerSocket, 1)
+		srv.Of("/").OnConnection(func(s sio.ServerSocket) { connCh <- s })
+		m := sio.NewManager(ts.URL, &sio.ManagerConfig{})
+		c := m.Socket("/", nil)
+		c.Connect()
+		var ss sio.ServerSocket
+		select {
+		case ss = <-connCh:
+		case <-time.After(10 * time.Second):
+			return fmt.Errorf("environment: no connection")
+		}
+		joined := make(chan struct{})
+		if forced {
+			d.armed.Store(true)
+			go func() { ss.Join(sio.Room(rmXs(9))); close(joined) }()
+			select {
+			case <-d.parked:
+			case <-time.After(10 * time.Second):
+				return fmt.Errorf("environment: Join did not reach the debugger")
+			}
+			// Disconnect either completes while the Join is held (the Join then lands after
+			// leaveAll), or waits for the Join in progress: release the Join after a grace period.
+			disc := make(chan struct{})
+			go func() { ss.Disconnect(false); close(disc) }()
+			select {
+			case <-disc:
+			case <-time.After(300 * time.Millisecond):
+			}
+			close(d.release)
+			<-joined
+			select {
+			case <-disc:
+			case <-time.After(10 * time.Second):
+				return fmt.Errorf("environment: Disconnect did not return")
+			}
+		} else {
+			ss.Disconnect(false)
+			ss.Join(sio.Room(rmXs(9)))
+		}
+		row := rmJoinRaceRow{Forced: forced, Rooms: []int{}, Connected: ss.Connected()}
+		set, ok := srv.Of("/").Adapter().SocketRooms(ss.ID())
+		row.RoomsOk = ok
+		if ok {
+			set.Each(func(r adapter.Room) bool { row.Rooms = append(row.Rooms, rmXk(string(r))); return false })
+		}
+		row.SocketRooms = ss.Rooms().Cardinality()
+		out.Put(row)
+		m.Close()
+		srv.Close()
+		ts.Close()
+	}
+	return nil
+}
+
 func roomsMain(args []string) error {
 	fs := flag.NewFlagSet("rooms", flag.ExitOnError)
 	seed := fs.Uint64("seed", 1, "")
@@ -582,6 +675,8 @@ func roomsMain(args []string) error {
 		return roomsLive(out, r, *n, *cases)
 	case "conc":
 		return roomsConc(out, r, *n)
+	case "joinrace":
+		return roomsJoinRace(out)
 	default:
 		return fmt.Errorf("unknown mode %q", *mode)
 	}
